@@ -16,7 +16,11 @@ import (
 )
 
 const (
-	closeReasonMaxBytes = 125
+	// A close frame's payload is at most 125 bytes and starts with the 2-byte status code
+	// (RFC 6455 5.5, 5.5.1): 123 bytes are left for the reason. With a longer reason
+	// coder/websocket refuses to build the close frame and the peer sees the TCP
+	// connection drop without any status.
+	closeReasonMaxBytes = 123
 	maxConns            = 2048 // TODO: an arbitrary default number, should be revisited after monitoring
 )
 
